@@ -170,7 +170,7 @@ func (e *Enc) freshArray(st *State, el types.Type, fill Term, setFill bool) Term
 	srt := arrSort(arrSort(es))
 	h := st.heapGet(e, name, srt)
 	if setFill {
-		st.heap[name] = e.def(name, tStore(h, r, Term{app("(as const "+arrSort(es)+")", fill.S), arrSort(es)}))
+		st.heap[name] = e.def(name, tStore(h, r, e.constArray(es, fill)))
 	}
 	return r
 }
